@@ -62,10 +62,13 @@ type PopENI struct {
 }
 
 type Config struct {
-	Trunk bool      `json:"trunk"`
-	Stack string    `json:"stack"` // v4 | dual
-	Pods  []PodSpec `json:"pods"`
-	Pop   []PopENI  `json:"pop,omitempty"`
+	// CacheLagMs > 0: the controllers read through an informer cache that lags the API server by up
+	// to this much (events fire on delivery); 0: direct reads, events at write time
+	CacheLagMs int       `json:"cache_lag_ms,omitempty"`
+	Trunk      bool      `json:"trunk"`
+	Stack      string    `json:"stack"` // v4 | dual
+	Pods       []PodSpec `json:"pods"`
+	Pop        []PopENI  `json:"pop,omitempty"`
 }
 
 type Op struct {
@@ -136,14 +139,16 @@ type World struct {
 	pending   []chan struct{}
 
 	// truth mirrors
-	prevENI   map[string]*v1beta1.PodENI // by name, last version seen by the API server
-	removedAt map[string]time.Time       // record name -> when it disappeared
-	passes    map[string]int             // queue/key -> reconcile counter
-	current   map[int]string             // task id -> pass label
-	bound     map[boundKey]time.Time     // (record, pod uid) -> last time the API server held it as Bind for that uid
-	boundEnd  map[boundKey]time.Time     // (record, pod uid) -> when it last stopped being Bind for that uid
-	unrefAt   map[string]time.Time       // interface -> when the record listing it disappeared
-	leakTicks []time.Time                // starts of the leak collector's passes
+	deliveredENI map[string]*v1beta1.PodENI // by name, last version the informer delivered (cache model)
+	prevENI      map[string]*v1beta1.PodENI // by name, last version seen by the API server
+	removedAt    map[string]time.Time       // record name -> when it disappeared
+	passes       map[string]int             // queue/key -> reconcile counter
+	current      map[int]string             // task id -> pass label
+	bound        map[boundKey]time.Time     // (record, pod uid) -> last time the API server held it as Bind for that uid
+	boundEnd     map[boundKey]time.Time     // (record, pod uid) -> when it last stopped being Bind for that uid
+	unrefAt      map[string]time.Time       // interface -> when the record listing it disappeared
+	keptAtCreate map[string]bool            // pod uid -> a kept fixed-IP record existed when this incarnation was created
+	leakTicks    []time.Time                // starts of the leak collector's passes
 }
 
 func (w *World) pick(n int, tag string) int { return w.run.S.Choose(n, tag) }
@@ -158,7 +163,14 @@ func (w *World) faultAt(site string) string {
 }
 
 // currentPass names the reconcile the calling task is in ("" outside any).
-func (w *World) currentPass() string { return w.current[w.run.S.CurrentTask().ID] }
+func (w *World) currentPass() string {
+	for _, id := range w.run.S.Ancestors() {
+		if l, ok := w.current[id]; ok {
+			return l
+		}
+	}
+	return ""
+}
 
 // ---------------------------------------------------------------------------------------
 
@@ -187,7 +199,7 @@ func (PodWorld) Run(t *testing.T, scAny any, chooser simrt.Chooser, keepLog bool
 	sc := scAny.(*Scenario)
 	return kit.Execute(t, chooser, keepLog, 600_000, func(run *kit.Run) {
 		w := &World{run: run, sc: sc, cfg: &sc.Cfg, faultIdx: map[string]int{}, faultPlan: map[string]string{}, remote: map[string]*eni.Remote{},
-			prevENI: map[string]*v1beta1.PodENI{}, removedAt: map[string]time.Time{}, passes: map[string]int{}, current: map[int]string{}, bound: map[boundKey]time.Time{}, boundEnd: map[boundKey]time.Time{}, unrefAt: map[string]time.Time{}}
+			prevENI: map[string]*v1beta1.PodENI{}, deliveredENI: map[string]*v1beta1.PodENI{}, removedAt: map[string]time.Time{}, passes: map[string]int{}, current: map[int]string{}, bound: map[boundKey]time.Time{}, boundEnd: map[boundKey]time.Time{}, unrefAt: map[string]time.Time{}, keptAtCreate: map[string]bool{}}
 		w.main()
 	})
 }
@@ -355,6 +367,7 @@ func (q *queue) Add(name string) {
 			q.w.onPassStart(q.name, name)
 			res, err := q.reconcile(ctx, reconcile.Request{NamespacedName: k8stypes.NamespacedName{Namespace: ns, Name: name}})
 			delete(q.w.current, tid)
+			q.w.onPassEnd(q.name, name, label, err)
 			q.w.run.S.Log("ctl", "%s -> requeue=%v after=%v err=%v", label, res.Requeue, res.RequeueAfter, err)
 			if gen != q.w.ctlGen {
 				return
@@ -400,6 +413,11 @@ func (w *World) startControllers() {
 		w.run.S.Kill(100 + w.ctlGen)
 	}
 	w.ctlGen++
+	w.api.ResetCache()
+	w.deliveredENI = map[string]*v1beta1.PodENI{}
+	for _, name := range sortedKeys(w.prevENI) {
+		w.deliveredENI[name] = w.prevENI[name].DeepCopy()
+	}
 	w.ctlCtx, w.ctlStop = context.WithCancel(context.Background())
 	var err error
 	w.vsw, err = vswitch.NewSwitchPool(100, "10m")
